@@ -268,6 +268,13 @@ LsS2(i, form) == IF form = "3d-each" THEN LsS(i, 1) ELSE LsS(i, 0)   \* pilots o
 LsOk(i, form) == /\ Det(MatMul(LsS(i, 0), Herm(LsS(i, 0)))) # GZero
                  /\ Det(MatMul(LsS2(i, form), Herm(LsS2(i, form)))) # GZero
                  /\ Det(Gram(LsS(i, 0))) # GZero
+\* The least-squares law is scale covariant: H_hat(H (c S), c S) = H for every c # 0.  Exact factors for
+\* TLC (Gaussian integers), and the rational factors <<p, q>> the replay additionally scales the pilots with
+\* (the observation is rebuilt from the scaled pilots, the expected channel does not change)
+ExactFactors == { <<3, 0>>, <<1, 2>>, <<0, -1>> }
+ObsScales == << <<1, 1000000000>>, <<1, 1000000>>, <<1, 1000>>, <<1000, 1>>, <<1000000, 1>> >>
+ScaleMat(cf, A) == TLCEval([i \in 1..Len(A) |-> TLCEval([j \in 1..Len(A[1]) |-> GMul(cf, A[i][j])])])
+LsNumDen(H, S) == LET G == Gram(S) IN [num |-> MatMul(MatMul(MatMul(H, S), Herm(S)), Adj(G)), den |-> Det(G)]
 LsRec(i, form) ==
   LET S  == LsS(i, 0)
       G  == Gram(S)
@@ -277,7 +284,7 @@ LsRec(i, form) ==
       H2 == LsH(i, 1)
   IN [kind |-> "ls", id |-> i, form |-> form, s |-> S, h |-> H, y |-> Y,
       s2 |-> S2, h2 |-> H2, y2 |-> MatMul(H2, S2),
-      num |-> MatMul(MatMul(Y, Herm(S)), Adj(G)), den |-> Det(G)]
+      num |-> MatMul(MatMul(Y, Herm(S)), Adj(G)), den |-> Det(G), scales |-> ObsScales]
 LsCase == /\ "ls" \in Kinds /\ Fresh
           /\ \E i \in 1..NLs : \E form \in {"2d", "3d-shared", "3d-each"} :
                LsOk(i, form) /\ c' = LsRec(i, form)
@@ -357,7 +364,8 @@ EstTaps(sc) == [a \in 1..sc.nrx |->
        ps == SortedSeq(nz)
    IN [i \in 1..Len(ps) |-> <<ps[i], YTap(sc, a, ps[i])>>]]
 
-EstRec(f, L, nrx, v) == LET sc == Scenario(f, L, nrx, v) IN [kind |-> "est", sc |-> sc, est |-> EstTaps(sc)]
+EstRec(f, L, nrx, v) == LET sc == Scenario(f, L, nrx, v)
+                       IN [kind |-> "est", sc |-> sc, est |-> EstTaps(sc), scales |-> ObsScales]
 EstCase == /\ "est" \in Kinds /\ Fresh
            /\ \E f \in EstFams : \E L \in EstLs : \E nrx \in EstNrx : \E v \in EstVars :
                 L % DOf(f) = 0 /\ c' = EstRec(f, L, nrx, v)
@@ -414,6 +422,12 @@ LsExact == Is("ls") =>
    /\ c.den # GZero
    /\ c.num = [i \in 1..Len(c.h) |-> [j \in 1..Len(c.h[1]) |-> GMul(c.den, c.h[i][j])]]
 
+LsScaleCovariant == Is("ls") =>
+   \A cf \in ExactFactors :
+      LET r == LsNumDen(c.h, ScaleMat(cf, c.s))
+      IN /\ r.den # GZero
+         /\ r.num = [i \in 1..Len(c.h) |-> [j \in 1..Len(c.h[1]) |-> GMul(r.den, c.h[i][j])]]
+
 \* scenario assumptions of the property: the target fits in the kept taps, every other user
 \* fits in its own shift window and either lies outside the kept taps or is cancelled by its cover
 ScenarioOk == Is("est") =>
@@ -431,6 +445,15 @@ EstimateExact == Is("est") =>
       /\ Len(c.est[a]) = Len(c.sc.taps)
       /\ \A i \in 1..Len(c.est[a]) :
            \E t \in 1..Len(c.sc.taps) : c.sc.taps[t].d = c.est[a][i][1] /\ c.sc.taps[t].v[a] = c.est[a][i][2]
+
+\* the estimators are homogeneous: an observation scaled by cf (every user's taps scaled) gives the estimate
+\* scaled by cf - no absolute threshold anywhere
+ScaleTaps(cf, taps) == [t \in 1..Len(taps) |-> [d |-> taps[t].d, v |-> [a \in 1..Len(taps[t].v) |-> GMul(cf, taps[t].v[a])]]]
+ScaleSc(cf, sc) == [sc EXCEPT !.taps = ScaleTaps(cf, @),
+                              !.others = [q \in 1..Len(@) |-> [@[q] EXCEPT !.taps = ScaleTaps(cf, @)]]]
+EstimateHomogeneous == Is("est") =>
+   \A cf \in ExactFactors : \A a \in 1..c.sc.nrx : \A p \in 0..Min(KeptUpTo(c.sc), c.sc.size - 1) :
+      YTap(ScaleSc(cf, c.sc), a, p) = GMul(cf, YTap(c.sc, a, p))
 
 (* ========================================================================= emission == *)
 Emit == EmitCase(c')
